@@ -68,7 +68,10 @@ func c09Batch(r *vc.Run, bi int, cfg atUndoCfg, n int) {
 	rnd := vc.NewRand(r.Seed, fmt.Sprintf("c09-%d", bi))
 	for i := 0; i < n; i++ {
 		pk := []string{"int", "composite", "varchar", "autoinc", "composite_txt"}[rnd.Intn(5)]
-		t := atGenTable(rnd, fmt.Sprintf("f%d_%04dt", bi, i), pk, []string{"int", "bigint", "varchar", "varchar_num", "double", "datetime"}, 3, 4+rnd.Intn(3), false)
+		// a third of the tables have nullable columns: the branch leaves NULL behind (or found NULL), the foreign writer
+		// puts a value there
+		nullable := rnd.Intn(3) == 0
+		t := atGenTable(rnd, fmt.Sprintf("f%d_%04dt", bi, i), pk, []string{"int", "bigint", "varchar", "varchar_num", "double", "datetime"}, 3, 4+rnd.Intn(3), nullable)
 		c := &atCase{Name: fmt.Sprintf("f%d_%04d", bi, i), Tables: []*atTable{t}, Feat: map[string]string{"pk": pk, "cfg": cfg.String()}}
 		seq := 0
 		many := rnd.Intn(3) == 0
@@ -80,7 +83,7 @@ func c09Batch(r *vc.Run, bi int, cfg atUndoCfg, n int) {
 		if many {
 			rc = "many"
 		}
-		o := atStmtOpts{params: true, rowsClass: rc}
+		o := atStmtOpts{params: true, rowsClass: rc, nullBias: nullable}
 		var st atStmt
 		switch rnd.Intn(6) {
 		case 5:
@@ -109,7 +112,11 @@ func c09Batch(r *vc.Run, bi int, cfg atUndoCfg, n int) {
 		if pk == "composite_txt" && many && rnd.Bool() {
 			foreign = "some-rows"
 		}
+		if nullable && rnd.Bool() {
+			foreign = "change-written-column"
+		}
 		near := rnd.Bool()
+		c.Feat["nullable"] = fmt.Sprint(nullable)
 		c.Feat["foreign"] = foreign
 		c.Feat["foreign_value"] = map[bool]string{true: "near", false: "far"}[near]
 		c.Feat["stmt"] = st.Feat["stmt"]
